@@ -21,6 +21,7 @@ func SimResetGlobals() {
 	infoMu.Unlock()
 	atomic.StoreInt64(&signals, 0)
 	simResetOrdinals()
+	simGoSeq.Store(0)
 }
 
 // SimClientCount reports the size of the package-level client registry.
